@@ -1417,7 +1417,8 @@ rrul_fill_wly(echs_instant_t *restrict tgt, size_t nti, rrulsp_t rr)
 	}
 
 	/* fill up the array the hard way */
-	for (res = 0UL, maxd = echs_scale_ndim(srcsca, y, m); res < nti;
+	for (res = 0UL, maxd = echs_scale_ndim(srcsca, y, m);
+	     res < nti && y < 2100U;
 	     ({
 		     d += rr->inter * 7U;
 		     while (d > maxd) {
@@ -1576,7 +1577,7 @@ rrul_fill_dly(echs_instant_t *restrict tgt, size_t nti, rrulsp_t rr)
 	/* fill up the array the hard way */
 	for (res = 0UL, w = echs_scale_wday(srcsca, y, m, d),
 		     maxd = echs_scale_ndim(srcsca, y, m);
-	     res < nti;
+	     res < nti && y < 2100U;
 	     ({
 		     d += rr->inter;
 		     w += rr->inter;
@@ -1740,7 +1741,7 @@ rrul_fill_Hly(echs_instant_t *restrict tgt, size_t nti, rrulsp_t rr)
 	/* fill up the array the naive way */
 	for (unsigned int w = ymd_get_wday(y, m, d), yd = ymd_get_yd(y, m, d),
 		     maxd = __get_ndom(y, m), maxy = (y % 4U) ? 365 : 366;
-	     res < nti;
+	     res < nti && y < 2100U;
 	     ({
 		     if ((H += rr->inter) >= 24U) {
 			     d += H / 24U, w += H / 24U, yd += H / 24U;
@@ -1936,7 +1937,7 @@ rrul_fill_Mly(echs_instant_t *restrict tgt, size_t nti, rrulsp_t rr)
 
 	/* fill up the array the naive way */
 	for (unsigned int w = ymd_get_wday(y, m, d), maxd = __get_ndom(y, m);
-	     res < nti;
+	     res < nti && y < 2100U;
 	     ({
 		     if ((M += rr->inter) >= 60U) {
 			     H += M / 60U, M %= 60U;
@@ -1958,15 +1959,16 @@ rrul_fill_Mly(echs_instant_t *restrict tgt, size_t nti, rrulsp_t rr)
 	     })) {
 		/* we're subtractive, so check if the current ymd matches
 		 * if not, just continue and check the next candidate */
-		if (!(wd_mask & (1U << w))) {
-			/* huh? */
-			continue;
-		} else if (!(m_mask & (1U << m))) {
-			/* skip the whole month */
-			continue;
-		} else if (!(posd_mask & (1U << d)) &&
-			   !(negd_mask & (1U << (maxd - d)))) {
-			/* day is filtered */
+		if (!(wd_mask & (1U << w)) ||
+		    !(m_mask & (1U << m)) ||
+		    (!(posd_mask & (1U << d)) &&
+		     !(negd_mask & (1U << (maxd - d))))) {
+			/* the day is filtered, no point in looking at every
+			 * minute of it: step just short of midnight, keeping
+			 * in phase with INTERVAL */
+			const unsigned int rem = 1440U - (H * 60U + M);
+
+			M += (rem - 1U) / rr->inter * rr->inter;
 			continue;
 		} else if (!(H_mask & (1U << H))) {
 			/* hour is filtered */
@@ -2133,7 +2135,7 @@ rrul_fill_Sly(echs_instant_t *restrict tgt, size_t nti, rrulsp_t rr)
 
 	/* fill up the array the naive way */
 	for (unsigned int w = ymd_get_wday(y, m, d), maxd = __get_ndom(y, m);
-	     res < nti;
+	     res < nti && y < 2100U;
 	     ({
 		     if ((S += rr->inter) >= 60U) {
 			     M += S / 60U, S %= 60U;
@@ -2159,18 +2161,23 @@ rrul_fill_Sly(echs_instant_t *restrict tgt, size_t nti, rrulsp_t rr)
 	     })) {
 		/* we're subtractive, so check if the current ymd matches
 		 * if not, just continue and check the next candidate */
-		if (!(wd_mask & (1U << w))) {
-			/* huh? */
-			continue;
-		} else if (!(m_mask & (1U << m))) {
-			/* skip the whole month */
-			continue;
-		} else if (!(posd_mask & (1U << d)) &&
-			   !(negd_mask & (1U << (maxd - d)))) {
-			/* day is filtered */
+		if (!(wd_mask & (1U << w)) ||
+		    !(m_mask & (1U << m)) ||
+		    (!(posd_mask & (1U << d)) &&
+		     !(negd_mask & (1U << (maxd - d))))) {
+			/* the day is filtered, no point in looking at every
+			 * second of it: step just short of midnight, keeping
+			 * in phase with INTERVAL */
+			const unsigned int rem =
+				86400U - ((H * 60U + M) * 60U + S);
+
+			S += (rem - 1U) / rr->inter * rr->inter;
 			continue;
 		} else if (!(H_mask & (1U << H))) {
-			/* hour is filtered */
+			/* hour is filtered, same thing on a smaller scale */
+			const unsigned int rem = 3600U - (M * 60U + S);
+
+			S += (rem - 1U) / rr->inter * rr->inter;
 			continue;
 		} else if (!(M_mask & (1ULL << M))) {
 			/* minute is filtered */
